@@ -130,6 +130,27 @@ def runRtl (d : Design) (line : String) : String :=
         go k (BitVec.ofNat 21 ob.pc) (BitVec.ofNat 32 ob.a) (BitVec.ofNat 32 ob.b) (BitVec.ofNat 32 ob.o) ob.mem
           (s!"{h ob.pc} {h ob.a} {h ob.b} {h ob.o} {h ob.sv} {h ob.sc} {mw}" :: acc)
     "|".intercalate (("rst=" ++ rst) :: go n.toNat! pc2 a2 b2 o2 m2 [])
+  | ["seq", n, mem, pw] =>
+    let sp := parseSparse mem
+    let m0 := memOfSparse sp
+    -- the harness produces two events with reset high (posedge i_rst, then posedge i_clk)
+    let (p0, pa, pb, po) := match pw.splitOn "," with
+      | [x0, x1, x2, x3] => (BitVec.ofNat 21 (hexToNat x0), word x1, word x2, word x3)
+      | _ => (0, 0, 0, 0)
+    let (pc1, a1, b1, o1, m1) := d.reset p0 pa pb po m0
+    let da0 := (d.clock p0 pa pb po m0).da
+    let (pc2, a2, b2, o2, m2) := d.reset pc1 a1 b1 o1 m1
+    let da1 := (d.clock pc1 a1 b1 o1 m1).da
+    let rst := diffAt (da0 :: da1 :: sp.map (·.1)) m0 m2
+    let rec goP (k : Nat) (pc : BitVec 21) (a b o : Word) (m : MemF) (acc : List String) : List String :=
+      match k with
+      | 0 => acc.reverse
+      | k + 1 =>
+        let ob := d.clock pc a b o m
+        let mw := diffAt [ob.da] m ob.mem
+        goP k (BitVec.ofNat 21 ob.pc) (BitVec.ofNat 32 ob.a) (BitVec.ofNat 32 ob.b) (BitVec.ofNat 32 ob.o) ob.mem
+          (s!"{h ob.pc} {h ob.a} {h ob.b} {h ob.o} {h ob.sv} {h ob.sc} {mw}" :: acc)
+    "|".intercalate (("rst=" ++ rst) :: goP n.toNat! pc2 a2 b2 o2 m2 [])
   | _ => "bad-op"
 
 def main (args : List String) : IO Unit := do
